@@ -40,7 +40,7 @@ pub open spec fn provide_ok(w: World, pair: Seq<char>, pi: PairInfoRaw, i0: Asse
 //%%rewrite #1 /receiver\.unwrap_or_else\(\|\| info\.sender\.to_string\(\)\)/ => vunwrap_or_else(receiver, || -> (x: String) ensures x@ == info.sender.0@ { info.sender.to_string() }) ## R4: Option::unwrap_or_else -> verified helper; closure annotated
 //%%sig
     ensures
-        /*[C09,C05 provide.native-funds]*/ r is Ok ==> forall|j: int| 0 <= j < 2 ==> (#[trigger] assets[j].info matches AssetInfo::NativeToken { denom } ==> assets[j].amount.0 as nat == attached(info.funds@, denom@)),
+        /*[C09,C05,C03 provide.native-funds]*/ r is Ok ==> forall|j: int| 0 <= j < 2 ==> (#[trigger] assets[j].info matches AssetInfo::NativeToken { denom } ==> assets[j].amount.0 as nat == attached(info.funds@, denom@)),
         /*[C05,C03,C07 provide.mints-and-pulls]*/ r is Ok ==> old(deps.storage).pair_info is Some && ({
             let pi = old(deps.storage).pair_info->Some_0;
             exists|i0: AssetInfo, i1: AssetInfo, share: Uint128| #![trigger raw_of(i0, pi.asset_infos[0]), raw_of(i1, pi.asset_infos[1]), is_share(share)]
@@ -55,7 +55,7 @@ pub open spec fn provide_ok(w: World, pair: Seq<char>, pi: PairInfoRaw, i0: Asse
         /*[C14,C07 provide.no-write]*/ *final(deps.storage) == *old(deps.storage),
 //%%loop 1
         invariant 0 <= it.index@ <= 2,
-            /*[C09,C05 provide.loop.native-funds]*/ forall|j: int| 0 <= j < it.index@ ==> (#[trigger] assets[j].info matches AssetInfo::NativeToken { denom } ==> assets[j].amount.0 as nat == attached(info.funds@, denom@)),
+            /*[C09,C05,C03 provide.loop.native-funds]*/ forall|j: int| 0 <= j < it.index@ ==> (#[trigger] assets[j].info matches AssetInfo::NativeToken { denom } ==> assets[j].amount.0 as nat == attached(info.funds@, denom@)),
 //%%insert before #1 /let mut messages: Vec<CosmosMsg> = vec!\[\];/
     let ghost pools0 = pools;
     let ghost pair = env.contract.address.0@;
